@@ -1224,31 +1224,31 @@ run_task(_task_t t)
 static __attribute__((pure, const)) ev_tstamp
 instant_to_tstamp(echs_instant_t i)
 {
-/* this way around it's easier, date range supported is 2001 to 2099
- * (i.e. with no bullshit leap years) */
+/* proleptic Gregorian calendar, any year of the instant type */
 	static uint16_t __mon_yday[] = {
-		/* this is \sum ml,
-		 * first element is a bit set of leap days to add */
-		0xfff8, 0,
+		/* this is \sum ml */
+		0, 0,
 		31, 59, 90, 120, 151, 181,
 		212, 243, 273, 304, 334, 365
 	};
-	unsigned int nd = 0U;
+	const unsigned int y = i.y - 1U;
+	const bool leapp = !(i.y % 4U) && (i.y % 100U || !(i.y % 400U));
+	long int nd;
 	time_t t;
 
-	/* days from 2001-01-01 till day 0 of current year,
+	/* days from 0001-01-00 till day 0 of current year,
 	 * i.e. i.y-01-00 */
-	nd += 365U * (i.y - 2001U) + (i.y - 2001U) / 4U;
+	nd = 365L * y + y / 4U - y / 100U + y / 400U;
 	/* day-of-year */
-	nd += __mon_yday[i.m] + i.d + UNLIKELY(!(i.y % 4U) && i.m >= 3);
+	nd += __mon_yday[i.m] + i.d + UNLIKELY(leapp && i.m >= 3);
+	/* calc number of days since unix epoch */
+	nd -= 719163L/*days from 0001-01-00 to unix epoch*/;
 
 	if (LIKELY(!echs_instant_all_day_p(i))) {
-		t = (((time_t)nd * 24U + i.H) * 60U + i.M) * 60U + i.S;
+		t = (((time_t)nd * 24 + i.H) * 60 + i.M) * 60 + i.S;
 	} else {
-		t = (time_t)nd * 86400UL;
+		t = (time_t)nd * 86400L;
 	}
-	/* calc number of seconds since unix epoch */
-	t += 11322/*days from unix epoch to our epoch*/ * 86400UL;
 	return (double)t;
 }
 
